@@ -101,3 +101,44 @@ PROPS["C04"] = _std(
                   R("serial32"), R("serial32", "rel-notables"), R("serial64"), R("fiat64"), R("fiat32"),
                   R("avx512"), R("avx512", dispatch="avx2"), R("avx512", dispatch="serial"), R("avx512", "rel-notables")],
 )
+
+
+PROPS["C06"] = _std(
+    "model_checking",
+    "explicit-state BFS over raw internal representatives of RistrettoPoint (actions: +,-,neg,double,recompress with pool elements, and explicit 4-torsion coset shifts through the hook) with oracle = RFC 9496 ENCODE of the model coset, coset equality, [l]P = 0, decode(encode(P)) = P; "
+    "decoder on ~700 structured strings covering each RFC 9496 rejection class; one-way map on all pairs of corner field values incl. the solved exceptional preimages; batched double-and-compress on every <=3-tuple of a pool containing the identity and 4-torsion representatives. distinct_nontrivial = distinct machine states.",
+    "Explicit-state exploration of Ristretto operation histories and coset representatives against a transcription of RFC 9496; decoder/one-way-map enumerated on structured alphabets.",
+    "DESIGN.md section 4, C06",
+    "explicit-state BFS over real representatives + alphabet enumeration against an RFC 9496 transcription",
+    lambda tier: [R("simd"), R("serial32")] if tier == "quick" else [R("simd"), R("simd", dispatch="serial"), R("serial32"), R("serial64"), R("fiat64"), R("fiat32"), R("avx512")],
+)
+
+PROPS["C07"] = _std(
+    "exploration",
+    "exhaustive product of a clamping-sensitive scalar alphabet with a u-coordinate alphabet (canonical, non-canonical, bit 255, small-order, twist, u=-1, images of torsion points) through byte-level x25519 and every typed Diffie-Hellman path; "
+    "all bit strings up to a length bound (plus 255..512-bit patterns) through mul_bits_be; Montgomery<->Edwards conversions with both signs; equality/hash mod p; Ed25519->X25519 key conversions. Oracle: RFC 7748 pseudocode ladder. distinct_nontrivial = (scalar, u) pairs.",
+    "Exhaustive over structured (k, u) alphabets and all short bit strings against the RFC 7748 ladder, which shares no code or formulas with the Edwards arithmetic.",
+    "DESIGN.md section 4, C07",
+    "exhaustive alphabet enumeration against an RFC 7748 transcription",
+    lambda tier: [R("simd"), R("serial32")] if tier == "quick" else [R(b) for b in ALL_BACKENDS] + [R("simd", "rel-notables"), R("simd", dispatch="serial")],
+)
+
+PROPS["C08"] = _std(
+    "model_checking",
+    "(1) every (seed, message length, context length) of the alphabet through every signing entry point, bytes compared with RFC 8032 (pure and ph), contexts of 256/257/1000 bytes must be refused; hazmat signing with a scripted identity digest puts the nonce on 0, 1, l-1, l, 2^255, 2^256-1; "
+    "(2) every (secret, public) pair through from_keypair_bytes; (3) explicit-state BFS over (key, message, context, signature provenance, R/S mutation) tuples from honest tuples, every state verified by all real verifiers and compared with the RFC acceptance rule. distinct_nontrivial = signing cases + machine states.",
+    "Explicit-state exploration of (key, message, context, signature) tuples within mutation distance 2 of honest ones, plus exhaustive signing alphabets, against an RFC 8032 transcription self-tested on the RFC vectors.",
+    "DESIGN.md section 4, C08",
+    "explicit-state BFS over verification tuples + exhaustive signing alphabet against an RFC 8032 transcription",
+    lambda tier: [R("simd"), R("serial32", "rel-notables")] if tier == "quick" else [R(b) for b in ALL_BACKENDS] + [R("simd", "rel-notables"), R("simd", dispatch="serial")],
+)
+
+PROPS["C09"] = _std(
+    "exploration",
+    "full product of adversarial key encodings (8 torsion points in every canonical/non-canonical form, honest, honest+torsion, undecodable) x adversarial R (same classes) x S classes (0, 1, l-1, l, l+1, S+l, 2^252.., bit 255) x contexts, with messages manufactured by the model so that the cofactorless equation holds for small-order and mixed-order cases; "
+    "every tuple through every verifier (plain, strict, prehashed, hazmat, trait impls) and compared with the documented rule; contexts longer than 255 bytes must be refused. distinct_nontrivial = tuples driven.",
+    "Exhaustive over a structured adversarial alphabet that contains accepting small-order/mixed-order cases by construction; with and without legacy_compatibility.",
+    "DESIGN.md section 4, C09",
+    "exhaustive adversarial-alphabet enumeration against the documented acceptance rule",
+    lambda tier: [R("simd"), R("simd", "rel-legacy")] if tier == "quick" else [R("simd"), R("simd", "rel-legacy"), R("simd", dispatch="serial"), R("serial32"), R("serial32", "rel-legacy"), R("serial64"), R("fiat64"), R("fiat32"), R("avx512")],
+)
